@@ -9,12 +9,19 @@ from ...spaces import Points
 BARY_ATOL = 1e-5
 
 
-def _bary_atol(origin, dir_1, dir_2):
+def _rounding_unit(dtype):
+    # about twice the relative rounding error of a number of the given float type
+    # (2.5e-7 for float32)
+    return 2.1 * torch.finfo(dtype).eps if dtype.is_floating_point else 0.0
+
+
+def _bary_atol(origin, dir_1, dir_2, dtype=torch.float32):
     """Absolute tolerance (one value per row) for deciding that a barycentric coordinate
-    of a float32 point equals 0 or 1. The rounding error of the point, about 6e-8 times
-    its largest coordinate, is divided by the edge lengths when the barycentric
-    coordinates are computed: for shapes that are small compared to their distance from
-    the origin it exceeds BARY_ATOL, which therefore is only the lower bound."""
+    of a point of the given float type equals 0 or 1. The rounding error of the point,
+    about 6e-8 (float32) times its largest coordinate, is divided by the edge lengths
+    when the barycentric coordinates are computed: for shapes that are small compared to
+    their distance from the origin it exceeds BARY_ATOL, which therefore is only the
+    lower bound."""
     largest = torch.amax(torch.abs(origin), dim=1, keepdim=True)
     for direction in (dir_1, dir_2):
         corner = torch.amax(torch.abs(origin + direction), dim=1, keepdim=True)
@@ -24,7 +31,7 @@ def _bary_atol(origin, dir_1, dir_2):
         torch.sum(torch.abs(dir_1), dim=1, keepdim=True),
         torch.sum(torch.abs(dir_2), dim=1, keepdim=True),
     )
-    return torch.clamp(2.5e-7 * largest * length / det, min=BARY_ATOL)
+    return torch.clamp(_rounding_unit(dtype) * largest * length / det, min=BARY_ATOL)
 
 
 def _bary_close(bary_coord, value, atol):
@@ -205,7 +212,7 @@ class ParallelogramBoundary(BoundaryDomain):
         points = points[:, list(self.space.keys())].as_tensor
         points -= origin
         bary_x, bary_y = self.domain._solve_lgs(points, dir_1, dir_2)
-        atol = _bary_atol(origin, dir_1, dir_2)
+        atol = _bary_atol(origin, dir_1, dir_2, points.dtype)
         x_close = self._bary_coords_close_to_0_or_1(bary_x, bary_y, atol)
         y_close = self._bary_coords_close_to_0_or_1(bary_y, bary_x, atol)
         return torch.logical_or(x_close, y_close)
@@ -302,7 +309,7 @@ class ParallelogramBoundary(BoundaryDomain):
         bary_x, bary_y = self.domain._solve_lgs(points - origin, dir_1, dir_2)
         normal_dir_1 = self._get_normal_direction(dir_1, device)
         normal_dir_2 = -self._get_normal_direction(dir_2, device)
-        atol = _bary_atol(origin, dir_1, dir_2)
+        atol = _bary_atol(origin, dir_1, dir_2, points.dtype)
         # compute for each point what the normal vector should be, by checking the
         # value of the local barycentric coordinate = 0 or 1
         self._add_local_normal_vector(
